@@ -32,6 +32,8 @@ var c13Menu = []string{
 	// every node test applied directly to the caller's variable (the self axis passes its input through)
 	"$v/self::b", "$v/self::*", "$v/self::node()", "$v/self::p:b", "$v/self::*:c", "$v/self::p:*", "$v/self::text()", "$w/self::c", "$v/.", "$v/self::c/..", "$v[self::b]", "$v/self::b[1]", "count($v/self::c)",
 	"$v/self::comment()", "$v/self::processing-instruction()", "$v/self::processing-instruction('t')", "$v/@*", "$v/namespace::*", "$v/self::r",
+	// steps that gather the tree's own child/attribute/namespace lists of several context nodes
+	"//*/@*", "(/* | //b)/@*", "(/* | /*/c)/@*", "(/*/b[1] | //d)/@*", "(/*/b[1] | /*/c)/node()", "(/*/b[1] | //d)/namespace::*", "//*/namespace::*", "//*/*", "//*/node()", "//b/preceding-sibling::node()", "//c/following-sibling::node()", "//*/@*/..", "//b/ancestor::*/@*", "$v/*", "$v/node()",
 }
 
 var c13Ctx = []string{"/", "/0/0", "/0/@0"}
@@ -40,7 +42,22 @@ func c13Doc(k int) *adoc.Doc {
 	d := adoc.NewDoc()
 	var r *adoc.Node
 	if k == 0 {
-		r = adoc.E("r", adoc.E("b", adoc.T("1"), adoc.E("c", adoc.T("2"))), adoc.E("c", adoc.T("3")), adoc.E("b", adoc.E("b", adoc.T("4"))), adoc.T("5"))
+		// lists of 3 and 5 entries: the store builds them with append, so their
+		// backing arrays have spare capacity a careless append can write into
+		b1 := adoc.E("b", adoc.T("1"), adoc.E("c", adoc.T("2")), adoc.C("k"))
+		b1.Add(adoc.A("i", "1"))
+		b1.Add(adoc.A("j", "2"))
+		b1.Add(adoc.A("k", "3"))
+		c2 := adoc.E("c", adoc.T("3"))
+		c2.Add(adoc.A("m", "6"))
+		d5 := adoc.E("d")
+		d5.Add(adoc.A("n", "5"))
+		r = adoc.E("r", b1, c2, adoc.E("b", adoc.E("b", adoc.T("4"))), adoc.T("5"), d5)
+		r.Declare("p", adoc.URI_U)
+		r.Declare("q", adoc.URI_V)
+		r.Declare("", adoc.URI_D)
+		r.Add(adoc.A("y", "8"))
+		r.Add(adoc.A("z", "7"))
 	} else {
 		r = adoc.E("r", adoc.E("c"), adoc.E("b", adoc.E("c", adoc.E("b"))), adoc.C("x"), adoc.E("b"))
 		r.Declare("p", adoc.URI_U)
